@@ -171,7 +171,7 @@ class Prep:
         lookup = norm.private_lookup(module=self.tree, classes=classes, skip=('_log10',))   # (_log10: see Expr.tr)
         f = norm.canon_fn(f)
         if inline:
-            f = norm.Inliner(lookup).visit(f)
+            f = norm.Inliner(lookup, caller_locals=norm.local_names(f)).visit(f)
         body = []
         for st in norm.unroll_for_else(norm.hoist_ifexp(strip_doc(f.body))):
             # `log10 = _helper(d)`: a helper that picks np.log10 / math.log10 becomes the inline if/else
